@@ -792,7 +792,13 @@ def f_factorize_from(which, report):
              # the sub-diagonal entry written for it is the literal zero, never the norm of the new direction
              ("subdiag", r"F->m_fac_H\((\w+), \1 - 1\) = (?!F->m_fac_H)([^;]+);",
               r"{ const Scalar verif_sub = (\2); __CPROVER_assert(g_bd_col != \1 || verif_sub == (Scalar)0, @Q@breakdown: H(i, i-1) of a column restarted from a random direction is exactly zero@Q@); F->m_fac_H(\1, \1 - 1) = verif_sub; }", {"min": 1, "max": 1}),
-             ("mk", r"F->m_k = to_m;", "F->m_k = to_m; F->g_valid_k = to_m; g_clock++; F->st_fac = g_clock;", {"max": 1})]
+             ("mk", r"F->m_k = to_m;", "F->m_k = to_m; F->g_valid_k = to_m; g_clock++; F->st_fac = g_clock;", {"max": 1}),
+             # C13 (no NaN handed to the operator) / C07: division-site obligation - the residual is normalised by a norm that is strictly positive on BOTH paths
+             # (no restart: beta >= near_0 > 0; restart: expand_basis returned through its acceptance test, whose postcondition gives a nonzero norm)
+             ("div-site", r"((?:v|F->m_fac_V\.col\(\w+\))\.noalias\(\) = F->m_fac_f / F->m_beta;)",
+              r"__CPROVER_assert((g_bd_col == %s && !g_accepted) || F->m_beta > (Scalar)0, @Q@division site: the new basis vector f / ||f|| is formed with a strictly positive norm "
+              r"(no 0/0 enters V or the operator) - unless all five random restart directions of this column failed the orthogonality test@Q@); \1" % COL, {"min": 1})]
+    n_div = len(re.findall(r"/\s*m_beta\b", f.body))
     if which == "Arnoldi":
         extra.append(("h-map", r"MapVec h\(&F->m_fac_H\(0, i\), i1\);", "Scalar *h = MAT_COLPTR(&F->m_fac_H, 0, i); __CPROVER_assert(i1 <= F->m_fac_H.rows, @Q@Eigen::Map of a column segment stays inside the column@Q@);", {"max": 1}))
     inner_extra = ", __CPROVER_object_whole(F->m_fac_H.colbuf)" if which == "Arnoldi" else ""
@@ -815,6 +821,8 @@ def f_factorize_from(which, report):
             R.fired["vdef:" + nm] = k
             if k < mn:
                 raise X.ExtractionBreak("%s::factorize_from: V_def typestate rule %s fired %d < %d times" % (which, nm, k, mn))
+    if R.fired.get("x:div-site", 0) != n_div:
+        raise X.ExtractionBreak("%s::factorize_from: %d divisions by m_beta in the text, %d recognised as normalisation sites" % (which, n_div, R.fired.get("x:div-site", 0)))
     report["%s::factorize_from" % which] = R.fired
     report.setdefault("abstracted_statements", {})["%s::factorize_from" % which] = stm
     return t, spec
